@@ -749,7 +749,9 @@ func (v *View) put(_ context.Context, key string, rdr io.Reader, noOverwrite, wi
 			break
 		}
 		now := w.Clock.Now()
+		oldSize := 0
 		if ok {
+			oldSize = len(o.data)
 			o.data, o.updated = data, now
 			// GCS: an overwrite creates a new generation; Created is that generation's time
 			o.created = now
@@ -759,7 +761,7 @@ func (v *View) put(_ context.Context, key string, rdr io.Reader, noOverwrite, wi
 		}
 		arg := ""
 		if ok {
-			arg = "overwrite"
+			arg = fmt.Sprintf("overwrite:%d", oldSize)
 		}
 		v.record(Event{Op: op, Key: key, Landed: true, Size: len(data), Sum: crc32.ChecksumIEEE(data), Arg: arg})
 	}
